@@ -158,7 +158,128 @@ UNITS.append(Unit(
     inst='EdgeTy with has_value (data kept), no NUMA options; arrays supplied by the harness with arbitrary initial content',
     says='BOUNDED: for every graph with <= 3 nodes and degrees <= 3 the constructed index is the prefix sum of the degrees and every slot of every node\'s range holds the callback\'s destination and data; callbacks are only asked for existing edges'))
 
+
+# ---- construction from a graph file: FileGraph accessors (FileGraph.cpp/.h) and LC_CSR_Graph::constructFrom(FileGraph&, tid, total) ----
+FGC = 'libgalois/src/FileGraph.cpp'
+FGH = 'libgalois/include/galois/graphs/FileGraph.h'
+FP = """
+/* the FileGraph object (a global): index / destination / data sections of the mapped file (little-endian host) */
+struct FG { uint64_t nodeOffset, edgeOffset, numNodes, numEdges; int graphVersion; const uint64_t* outIdx; const void* outs; const void* edgeData;
+            uint64_t numBytesReadIndex, numBytesReadEdgeDst, numBytesReadEdgeData; } fg;
+#define convert_le64toh(x) (x)
+#define convert_le32toh(x) (x)
+static inline uint64_t gv_min_u64(uint64_t a, uint64_t b) { return a < b ? a : b; }
+static inline void gv_warn(void) {}
+static inline void gv_die(void) { __CPROVER_assume(0); }
+#define MAXFE ((uint64_t)1 << 40)
+/* what the file stores for local node k: the (clamped) end of its edge range, relative to this part of the file */
+#define FIDX(k) ((fg.outIdx[k] < fg.edgeOffset + fg.numEdges ? fg.outIdx[k] : fg.edgeOffset + fg.numEdges) - fg.edgeOffset)
+#define FG_SHAPE (fg.numNodes >= 1 && fg.numNodes <= ((uint64_t)1 << 32) && fg.numEdges <= MAXFE && fg.edgeOffset <= MAXFE && fg.nodeOffset <= ((uint64_t)1 << 32) && fg.numBytesReadIndex <= MAXFE && fg.numBytesReadEdgeDst <= MAXFE && fg.numBytesReadEdgeData <= MAXFE)
+"""
+FG_LOWER = [members(['nodeOffset', 'edgeOffset', 'numNodes', 'numEdges', 'graphVersion', 'outIdx', 'outs', 'edgeData', 'numBytesReadIndex', 'numBytesReadEdgeDst', 'numBytesReadEdgeData'], self='fg', arrow='.', minimum=1),
+            stdfn('std::min', 'gv_min_u64', 0), casts(0), rx(r'edge_iterator\(', '(', 0), rx(r'printf\("WARNING[^;]*;', 'gv_warn();', 0), rx(r'GALOIS_DIE\([^;]*;', 'gv_die();', 0)]
+UNITS.append(Unit(
+    name='FG_edge_begin', src=FGC, anchor=r'FileGraph::edge_iterator FileGraph::edge_begin\(GraphNode N\)', proto='uint64_t FG_edge_begin(uint64_t N)',
+    contract="""__CPROVER_requires(FG_SHAPE && N >= fg.nodeOffset && N - fg.nodeOffset <= fg.numNodes && __CPROVER_is_fresh(fg.outIdx, fg.numNodes * sizeof(uint64_t)) && (N > fg.nodeOffset ==> fg.outIdx[N - 1 - fg.nodeOffset] >= fg.edgeOffset))
+__CPROVER_ensures(__CPROVER_return_value == (N > fg.nodeOffset ? FIDX(N - 1 - fg.nodeOffset) : 0) && __CPROVER_return_value <= fg.numEdges)
+__CPROVER_assigns(fg.numBytesReadIndex)""",
+    prelude=[FP], lower=FG_LOWER, no_flags=['--conversion-check'],
+    says='FileGraph::edge_begin(N): 0 for the first node of the part, otherwise the previous node\'s (clamped) end index; never beyond numEdges'))
+UNITS.append(Unit(
+    name='FG_edge_end', src=FGC, anchor=r'FileGraph::edge_iterator FileGraph::edge_end\(GraphNode N\)', proto='uint64_t FG_edge_end(uint64_t N)',
+    contract="""__CPROVER_requires(FG_SHAPE && N >= fg.nodeOffset && N - fg.nodeOffset < fg.numNodes && __CPROVER_is_fresh(fg.outIdx, fg.numNodes * sizeof(uint64_t)) && fg.outIdx[N - fg.nodeOffset] >= fg.edgeOffset)
+__CPROVER_ensures(__CPROVER_return_value == FIDX(N - fg.nodeOffset) && __CPROVER_return_value <= fg.numEdges)
+__CPROVER_assigns(fg.numBytesReadIndex)""",
+    prelude=[FP], lower=FG_LOWER, no_flags=['--conversion-check'],
+    says='FileGraph::edge_end(N): the node\'s (clamped) index entry; never beyond numEdges; edge_begin(N+1) == edge_end(N) by the two contracts'))
+for ver, T in ((1, 'uint32_t'), (2, 'uint64_t')):
+    UNITS.append(Unit(
+        name='FG_getEdgeDst_v%d' % ver, src=FGC, anchor=r'FileGraph::GraphNode FileGraph::getEdgeDst\(edge_iterator it\)', proto='uint64_t FG_getEdgeDst_v%d(uint64_t it)' % ver,
+        contract="""__CPROVER_requires(FG_SHAPE && fg.graphVersion == %d && it < fg.numEdges && __CPROVER_is_fresh(fg.outs, (fg.numEdges + 1) * sizeof(%s)))
+__CPROVER_ensures(__CPROVER_return_value == ((const %s*)fg.outs)[it])
+__CPROVER_assigns(fg.numBytesReadEdgeDst)""" % (ver, T, T),
+        prelude=[FP], lower=FG_LOWER + [rx(r'\*it', 'it', 2, 2)], no_flags=['--conversion-check'], inst='file version %d' % ver,
+        says='FileGraph::getEdgeDst for a version-%d file: entry `it` of the destination section (%d-byte entries)' % (ver, 4 * ver)))
+for T, sfx in (('uint32_t', 'u32'), ('uint64_t', 'u64')):
+    UNITS.append(Unit(
+        name='FG_getEdgeData_' + sfx, src=FGH, anchor=r'EdgeTy& getEdgeData\(edge_iterator it\)', proto='%s* FG_getEdgeData_%s(uint64_t it)' % (T, sfx),
+        contract="""__CPROVER_requires(FG_SHAPE && it < fg.numEdges && __CPROVER_is_fresh(fg.edgeData, (fg.numEdges + 1) * sizeof(%s)))
+__CPROVER_ensures(__CPROVER_return_value == &((%s*)fg.edgeData)[it])
+__CPROVER_assigns(fg.numBytesReadEdgeData)""" % (T, T),
+        prelude=[FP], lower=FG_LOWER + [rx(r'\*it', 'it', 1, 1), rx(r'EdgeTy', T, 2), rx(r'assert\(fg\.edgeData\);', '__CPROVER_assert(fg.edgeData != 0, "code-assert: edgeData");', 1, 1), rx(r'return \(\(', 'return &((', 1, 1)],
+        no_flags=['--conversion-check'], inst='EdgeTy = %s' % T, says='FileGraph::getEdgeData<%s>: entry `it` of the edge-data section' % T))
+
+
+CFP = """
+struct CSRF { uint32_t numNodes; uint64_t numEdges; uint64_t* edgeIndData; uint32_t* edgeDst; uint32_t* edgeData; };
+uint64_t g_lo, g_hi;     /* ghost: the node range divideByNode hands to this thread */
+uint64_t g_pn, g_x;      /* ghost probes: a node, an edge slot */
+#define BEG(n) ((n) > 0 ? FIDX((n) - 1) : (uint64_t)0)
+/* ASSUMED contracts of the FileGraph calls = the PROVED contracts of FG_edge_begin / FG_edge_end / FG_getEdgeDst_v1 / FG_getEdgeData_u32 for a
+   whole file (nodeOffset == edgeOffset == 0), plus the validity of the file: its index never decreases (instance for the node asked) */
+static inline uint64_t FG_edge_end_f(uint64_t N) { __CPROVER_assert(N < fg.numNodes, "edge_end: node in range"); __CPROVER_assume(BEG(N) <= FIDX(N)); return FIDX(N); }
+static inline uint64_t FG_edge_begin_f(uint64_t N) { __CPROVER_assert(N <= fg.numNodes, "edge_begin: node in range"); return BEG(N); }
+static inline uint64_t FG_getEdgeDst_f(uint64_t it) { __CPROVER_assert(it < fg.numEdges, "getEdgeDst: edge in range"); return ((const uint32_t*)fg.outs)[it]; }
+static inline uint32_t FG_getEdgeData_f(uint64_t it) { __CPROVER_assert(it < fg.numEdges, "getEdgeData: edge in range"); return ((const uint32_t*)fg.edgeData)[it]; }
+/* divideByNode(...).first: ASSUMED contract = what C13 proves about divideNodesBinarySearch: a node range inside [0, numNodes) */
+#define GV_NOP(...) ((void)0)
+#define DONE_IDX (self->edgeIndData[g_pn] == FIDX(g_pn))
+#define DONE_EDGE (self->edgeDst[g_x] == ((const uint32_t*)fg.outs)[g_x] && self->edgeData[g_x] == ((const uint32_t*)fg.edgeData)[g_x])
+"""
+UNITS.append(Unit(
+    name='CSR_constructEdgeValue', src=CSR, within=WITHIN, anchor=r'void constructEdgeValue\(FileGraph& graph,\s*typename FileGraph::edge_iterator nn,\s*typename std::enable_if<!_A1 \|\| _A2>::type\* = 0\)',
+    proto='void CSR_constructEdgeValue(struct CSRF* self, uint64_t nn)',
+    contract="""__CPROVER_requires(__CPROVER_is_fresh(self, sizeof(*self)) && FG_SHAPE && nn < fg.numEdges && self->numEdges == fg.numEdges && __CPROVER_is_fresh(fg.edgeData, (fg.numEdges + 1) * sizeof(uint32_t)) && __CPROVER_is_fresh(self->edgeData, (fg.numEdges + 1) * sizeof(uint32_t)))
+__CPROVER_ensures(self->edgeData[nn] == ((const uint32_t*)fg.edgeData)[nn])
+__CPROVER_assigns(self->edgeData[nn])""",
+    prelude=[FP, CFP], lower=[rx(r'typedef LargeArray<FileEdgeTy> FED;', '', 1, 1), rx(r'if \(EdgeData::has_value\)\s*edgeData\.set\(\*nn, graph\.getEdgeData<typename FED::value_type>\(nn\)\);', 'self->edgeData[nn] = FG_getEdgeData_f(nn);', 1, 1)],
+    no_flags=['--conversion-check'], inst='EdgeTy = FileEdgeTy = uint32_t', says='constructEdgeValue: slot nn of the graph\'s edge data = entry nn of the file\'s edge data'))
+UNITS.append(Unit(
+    name='CSR_constructFrom_file', src=CSR, within=WITHIN, anchor=r'void constructFrom\(FileGraph& graph, unsigned tid, unsigned total,\s*const bool readUnweighted = false\)',
+    proto='void CSR_constructFrom_file(struct CSRF* self, unsigned tid, unsigned total, const bool readUnweighted)',
+    contract="""__CPROVER_requires(__CPROVER_is_fresh(self, sizeof(*self)) && FG_SHAPE && fg.nodeOffset == 0 && fg.edgeOffset == 0 && fg.graphVersion == 1 && fg.numNodes <= (1u << 24) && total >= 1 && tid < total && !readUnweighted)
+__CPROVER_requires(self->numNodes == fg.numNodes && self->numEdges == fg.numEdges && g_pn < fg.numNodes && g_x < fg.numEdges)
+__CPROVER_requires(__CPROVER_is_fresh(fg.outIdx, fg.numNodes * sizeof(uint64_t)) && __CPROVER_is_fresh(fg.outs, (fg.numEdges + 1) * sizeof(uint32_t)) && __CPROVER_is_fresh(fg.edgeData, (fg.numEdges + 1) * sizeof(uint32_t)))
+__CPROVER_requires(__CPROVER_is_fresh(self->edgeIndData, fg.numNodes * sizeof(uint64_t)) && __CPROVER_is_fresh(self->edgeDst, (fg.numEdges + 1) * sizeof(uint32_t)) && __CPROVER_is_fresh(self->edgeData, (fg.numEdges + 1) * sizeof(uint32_t)))
+/* this thread's nodes get the file's index entries; the edge slots of exactly those nodes get the file's destinations and data */
+__CPROVER_ensures((g_lo <= g_pn && g_pn < g_hi) ? DONE_IDX : self->edgeIndData[g_pn] == __CPROVER_old(self->edgeIndData[g_pn]))
+__CPROVER_ensures((BEG(g_lo) <= g_x && g_x < BEG(g_hi)) ? DONE_EDGE : (self->edgeDst[g_x] == __CPROVER_old(self->edgeDst[g_x]) && self->edgeData[g_x] == __CPROVER_old(self->edgeData[g_x])))
+__CPROVER_assigns(__CPROVER_object_whole(self->edgeIndData), __CPROVER_object_whole(self->edgeDst), __CPROVER_object_whole(self->edgeData), fg.numBytesReadIndex, fg.numBytesReadEdgeDst, fg.numBytesReadEdgeData)""",
+    prelude=[FP, CFP], uses=['CSR_constructEdgeValue_assumed', 'FG_divideByNode_nodes'],
+    lower=[rx(r'auto r =\s*graph\s*\.divideByNode\(.*?\)\s*\.first;', 'struct pair_u64 r = FG_divideByNode_nodes(tid, total);', 1, 1, flags=re.S),
+           rx(r'this->setLocalRange\(\*r\.first, \*r\.second\);', 'GV_NOP();', 1, 1), rx(r'FileGraph::iterator ii = r\.first, ei = r\.second', 'uint64_t ii = r.first, ei = r.second', 1, 1),
+           rx(r'nodeData\.constructAt\(\*ii\);', 'GV_NOP();', 1, 1), rx(r'this->outOfLineConstructAt\(\*ii\);', 'GV_NOP();', 1, 1),
+           rx(r'FileGraph::edge_iterator nn = ', 'uint64_t nn = ', 1, 1), rx(r'(?<=\n)(\s+)en = graph', r'\1en = graph', 0),
+           rx(r'\*graph\.edge_end\(\*ii\)', 'FG_edge_end_f(ii)', 1), rx(r'graph\.edge_end\(\*ii\)', 'FG_edge_end_f(ii)', 1), rx(r'graph\.edge_begin\(\*ii\)', 'FG_edge_begin_f(ii)', 1),
+           rx(r'edgeData\.set\(\*nn, \{\}\);', 'self->edgeData[nn] = 0;', 1, 1), rx(r'constructEdgeValue\(graph, nn\);', 'CSR_constructEdgeValue_assumed(self, nn);', 1, 1),
+           rx(r'edgeDst\[\*nn\] = graph\.getEdgeDst\(nn\);', 'self->edgeDst[nn] = (uint32_t)FG_getEdgeDst_f(nn);', 1, 1), rx(r'edgeIndData\[\*ii\]', 'self->edgeIndData[ii]', 1, 1)],
+    loops={1: """__CPROVER_assigns(ii, __CPROVER_object_whole(self->edgeIndData), __CPROVER_object_whole(self->edgeDst), __CPROVER_object_whole(self->edgeData), fg.numBytesReadIndex, fg.numBytesReadEdgeDst, fg.numBytesReadEdgeData)
+__CPROVER_loop_invariant(g_lo <= ii && ii <= g_hi && ei == g_hi && g_hi <= fg.numNodes && BEG(g_lo) <= BEG(ii) && BEG(ii) <= fg.numEdges)
+__CPROVER_loop_invariant((g_lo <= g_pn && g_pn < ii) ? DONE_IDX : self->edgeIndData[g_pn] == __CPROVER_loop_entry(self->edgeIndData[g_pn]))
+__CPROVER_loop_invariant((BEG(g_lo) <= g_x && g_x < BEG(ii)) ? DONE_EDGE : (self->edgeDst[g_x] == __CPROVER_loop_entry(self->edgeDst[g_x]) && self->edgeData[g_x] == __CPROVER_loop_entry(self->edgeData[g_x])))
+__CPROVER_decreases(g_hi - ii)""",
+           2: """__CPROVER_assigns(nn, __CPROVER_object_whole(self->edgeDst), __CPROVER_object_whole(self->edgeData), fg.numBytesReadEdgeDst, fg.numBytesReadEdgeData)
+__CPROVER_loop_invariant(BEG(ii) <= nn && nn <= en && en == FIDX(ii) && en <= fg.numEdges && ii < g_hi && g_hi <= fg.numNodes && BEG(g_lo) <= BEG(ii))
+__CPROVER_loop_invariant((BEG(g_lo) <= g_x && g_x < nn) ? DONE_EDGE : (self->edgeDst[g_x] == __CPROVER_loop_entry(self->edgeDst[g_x]) && self->edgeData[g_x] == __CPROVER_loop_entry(self->edgeData[g_x])))
+__CPROVER_decreases(en - nn)"""},
+    backend='smt', timeout=900, no_flags=['--conversion-check'],
+    inst='EdgeTy = FileEdgeTy = uint32_t, version-1 file, whole file (nodeOffset = edgeOffset = 0), weighted read',
+    says='constructFrom(FileGraph&, tid, total) -- the per-thread body of readGraph for LC_CSR: for the node range this thread is given, the index entries are the file\'s (clamped) index entries and the edge slots of exactly those nodes hold the file\'s destinations and edge data, in file order; no other node or slot is written (ghost probe node / slot)',
+    trusted=['FileGraph accessor calls replaced by inline stubs that restate the proved FG_* contracts for a whole file + "the file index never decreases" (file validity)', 'divideByNode: assumed contract (C13)', 'setLocalRange / nodeData.constructAt / outOfLineConstructAt dropped']))
+UNITS.append(Unit(name='FG_divideByNode_nodes', kind='assumed', proto='struct pair_u64 FG_divideByNode_nodes(unsigned tid, unsigned total)',
+                  contract="""__CPROVER_requires(total >= 1 && tid < total)
+__CPROVER_ensures(__CPROVER_return_value.first == g_lo && __CPROVER_return_value.second == g_hi && g_lo <= g_hi && g_hi <= fg.numNodes)
+__CPROVER_assigns()""", prelude=[FP, CFP], says='FileGraph::divideByNode(...).first: a node range inside [0, numNodes) (what C13 proves about divideNodesBinarySearch)'))
+UNITS.append(Unit(name='CSR_constructEdgeValue_assumed', kind='assumed', proto='void CSR_constructEdgeValue_assumed(struct CSRF* self, uint64_t nn)',
+                  contract="""__CPROVER_requires(nn < fg.numEdges)
+__CPROVER_ensures(self->edgeData[nn] == ((const uint32_t*)fg.edgeData)[nn])
+__CPROVER_assigns(self->edgeData[nn])""", prelude=[FP, CFP], says='the contract proved by CSR_constructEdgeValue, without its allocation preconditions (the caller owns the arrays)'))
+
 EXPLANATION = ('LC_CSR_Graph raw_begin/raw_end/getDegree and the callback constructor are extracted from /repo, lowered to C and proved: per-node edge ranges come from consecutive index entries '
-               '(ordered, adjacent, from 0 to numEdges: lemma over the contracts), and the constructor builds the index as the prefix sum of the callback\'s edge counts and writes every slot of a node\'s range exactly once with the callback\'s destination and data.')
-NOT_DECIDED = ('every other layout (CSR+CSC, InOut, Linear, InlineEdge, Morph-LC, hypergraph), file-based construction (constructFrom, readGraphFromGRFile), in-edges, transpose, edge sorting, binary-search lookup, NUMA options, local ranges (C13 covers the division).')
-ASSUMPTIONS = ['callbacks are deterministic; per-node edge count <= 2^20, numNodes <= 2^24 (size bounds)', 'the prefix-sum ghost array is defined by the instances edgeNum(n) produces (never written)', 'allocation calls dropped; LargeArray = plain arrays']
+               '(ordered, adjacent, from 0 to numEdges: lemma over the contracts), and the constructor builds the index as the prefix sum of the callback\'s edge counts and writes every slot of a node\'s range exactly once with the callback\'s destination and data.  '
+               'Construction from a graph file: FileGraph::edge_begin/edge_end/getEdgeDst (v1, v2)/getEdgeData<uint32|uint64> against the file sections, LC_CSR_Graph::constructEdgeValue, and the per-thread body constructFrom(FileGraph&, tid, total): '
+               'for the node range a thread is given, index entries, destinations and edge data of exactly those nodes are the file\'s, in file order, and nothing else is written.')
+NOT_DECIDED = ('every other layout (CSR+CSC, InOut, Linear, InlineEdge, Morph-LC, hypergraph), in-edges, transpose, edge sorting, binary-search lookup, NUMA options, local ranges (C13 covers the division); '
+               'the composition of the per-thread constructFrom calls over all threads (the node ranges partition the nodes: C13) and the allocation/readGraph driver; void edge data and version-2 files for constructFrom; partial files (nodeOffset/edgeOffset != 0).')
+ASSUMPTIONS = ['callbacks are deterministic; per-node edge count <= 2^20, numNodes <= 2^24 (size bounds)', 'the prefix-sum ghost array is defined by the instances edgeNum(n) produces (never written)', 'allocation calls dropped; LargeArray = plain arrays',
+               'constructFrom: the FileGraph calls are inline stubs restating the proved FG_* contracts for a whole file, plus "the file index never decreases" (validity of the input file); divideByNode = assumed contract (C13); little-endian host']
